@@ -20,6 +20,11 @@ class SimCrash(BaseException):
     """Abrupt death of the scheduler process (passes ``except Exception``)."""
 
 
+class SimLivelock(BaseException):
+    """The scheduler spins (blocking sleeps) without finishing a main-loop
+    iteration; passes ``except Exception`` so that it cannot be swallowed."""
+
+
 class HarnessError(Exception):
     """The harness itself is broken (never reported as pass/violation)."""
 
@@ -229,6 +234,18 @@ class ConnProxy:
 
     def cursor(self):
         return self._c.cursor()
+
+    # sqlite3.Connection as a context manager: commit on success, roll back
+    # on an exception (both through the counted methods above)
+    def __enter__(self):
+        return self
+
+    def __exit__(self, etype, exc, tb):
+        if etype is None:
+            self.commit()
+        else:
+            self.rollback()
+        return False
 
     def __getattr__(self, name):
         return getattr(self._c, name)
